@@ -487,3 +487,30 @@ def gen_misc():
     g.vec("reweight", tr, flat_syms(tr, rw), names)
     g.scalar("tetavg", tr, as_sym(tr, avg).id, names)
     return [g.write()]
+
+
+def gen_level():
+    """level_length traced on the tetrahedron boundary for two crossing patterns (concolic samples): A — vertex 0 alone above the
+    level (three crossed triangles, one flag each); B — vertices 0, 1 above (four crossed triangles, two of them through the
+    'invert the flags' branch)"""
+    import lapy.tria_mesh as TM
+    g = GenModule("LevelLength", "lapy/tria_mesh.py::level_length on the tetrahedron boundary [[0,1,2],[0,3,1],[0,2,3],[1,3,2]], "
+                  "two crossing patterns", "(v0 v1 v2 v3 : V3 ℝ) (f0 f1 f2 f3 lev : ℝ)")
+    g.set_args("v0 v1 v2 v3 f0 f1 f2 f3 lev")
+    for tag, samp in (("A", {"f0": 0.9, "f1": -0.2, "f2": -0.5, "f3": -0.7, "lev": 0.1}),
+                      ("B", {"f0": 0.9, "f1": 0.6, "f2": -0.5, "f3": -0.7, "lev": 0.1})):
+        tr = Tracer(sample=samp)
+        v = sym_array(tr, "v", (4, 3))
+        f = sym_array(tr, "f", (4,))
+        lev = tr.var("lev")
+        names = v3_names("v", 4)
+        names.update({"f%d" % k: "f%d" % k for k in range(4)})
+        names["lev"] = "lev"
+        m = TM.TriaMesh(v, np.array(T4))
+        with np_proxied(TM, tr):
+            ll = m.level_length(f, lev)
+            ll2 = m.level_length(f, np.array([lev, lev], dtype=object))
+        g.pc(tr, names, nm="pc" + tag)
+        g.scalar("len" + tag, tr, as_sym(tr, ll).id, names)
+        g.vec("lens" + tag, tr, flat_syms(tr, ll2), names)
+    return [g.write()]
